@@ -99,8 +99,18 @@ impl<S: Read + Write> H2Raw<S> {
         self.send_frame(HEADERS, 0x4 | if end_stream { 0x1 } else { 0 }, stream, &block)
     }
 
+    /// One DATA frame (split only where the default SETTINGS_MAX_FRAME_SIZE of 16384 demands it).
+    /// The caller keeps the total under the default flow-control window of 65535 bytes.
     pub fn send_data(&mut self, stream: u32, data: &[u8], end_stream: bool) -> std::io::Result<()> {
-        self.send_frame(DATA, if end_stream { 0x1 } else { 0 }, stream, data)
+        if data.len() <= 16384 {
+            return self.send_frame(DATA, if end_stream { 0x1 } else { 0 }, stream, data);
+        }
+        let pieces: Vec<&[u8]> = data.chunks(16384).collect();
+        for (i, p) in pieces.iter().enumerate() {
+            let last = i + 1 == pieces.len();
+            self.send_frame(DATA, if end_stream && last { 0x1 } else { 0 }, stream, p)?;
+        }
+        Ok(())
     }
 
     pub fn send_rst(&mut self, stream: u32) -> std::io::Result<()> {
